@@ -759,6 +759,8 @@ func encRules(c *Ctx) {
 						c.S.Hold("C04", "ENC-REFARG", k, c.P.Pos(x.Pos()), "reference construction outside the namer (raw names reach it only for multi-document bundles with KeepNames, outside the quantifier)")
 						return true
 					}
+					// keyed by the receiver type, not by the method: the namer may be split into several methods
+					k = fi.Pkg.Types.Name() + ".InlineSchemaNamer/MustCreateRef"
 					c.S.Decide(!raw, "C04", "ENC-REFARG", k, c.P.Pos(x.Pos()),
 						"no raw (unescaped) name is spliced into the reference",
 						"the reference is built by joining a raw definition name (not pointer-escaped; raw under KeepNames) into a JSON pointer: a name containing '/' or '~' yields a $ref that does not resolve")
@@ -1057,6 +1059,7 @@ func (e *encEngine) mustRef() {
 		return
 	}
 	n := 0
+	ordMust := map[string]int{}
 	for _, fi := range core.SortedSet(c.P.Reachable(newFn)) {
 		info := c.info(fi)
 		for _, call := range calls(fi.Decl.Body) {
@@ -1075,7 +1078,23 @@ func (e *encEngine) mustRef() {
 				}
 				return true
 			})
-			c.S.Decide(!derived, "C09", "ENC-MUSTREF", fi.QName()+"/"+callee.Name(), c.P.Pos(call.Pos()),
+			// keyed by where the constructed reference goes (the field of the record it is stored in), so that the
+			// obligation — and the known finding — survives a renaming of the enclosing function
+			where := fi.QName()
+			if kv, ok := c.parents(fi)[call].(*ast.KeyValueExpr); ok {
+				if cl, ok := c.parents(fi)[kv].(*ast.CompositeLit); ok {
+					if _, tn := core.NamedOf(info.TypeOf(cl)); tn != "" {
+						if id, ok := kv.Key.(*ast.Ident); ok {
+							where = tn + "." + id.Name
+						}
+					}
+				}
+			}
+			ordMust[where]++
+			if ordMust[where] > 1 {
+				where = fmt.Sprintf("%s#%d", where, ordMust[where])
+			}
+			c.S.Decide(!derived, "C09", "ENC-MUSTREF", where+"/"+callee.Name(), c.P.Pos(call.Pos()),
 				"the panicking constructor only receives constants",
 				callee.Name()+" panics on an invalid URL escape and receives a string built from names of the document ("+exprStr(call.Args[0])+"): a definition or path named like \"100%zz\" makes analysis.New panic")
 		}
